@@ -4,22 +4,101 @@ env.install(0)
 from harness import shrink, driver
 from harness.props import common
 
+
+def clean2(cfg, ops, ops2, seed):
+    """Two-generation clean: returns (ops, ops2) accepted without refusals."""
+    ops = shrink.clean(cfg, ops, seed)
+    s = driver.replay(cfg, ops, seed)
+    img, oc = s.write()
+    if not oc.ok:
+        s.close()
+        return ops, None
+    s2, oc = s.reopen(img.getvalue())
+    if not oc.ok:
+        s.close()
+        return ops, None
+    acc = []
+    for op in ops2:
+        n_err = len(s2.model_errors)
+        out = s2.step(op)
+        if out.ok and len(s2.model_errors) == n_err:
+            acc.append(op)
+        elif out.ok:
+            s2.close(); s.close()
+            return ops, None
+    s2.close(); s.close()
+    return ops, acc
+
+
 def main():
     prop, path = sys.argv[1], sys.argv[2]
     mod = importlib.import_module('harness.props.' + prop.lower())
     doc = json.load(open(path))
-    key = sys.argv[3] if len(sys.argv) > 3 else doc['key']
+    key = sys.argv[3] if len(sys.argv) > 3 and sys.argv[3] != '-' else doc['key']
     cfg, ops, seed = common.doc_cfg_ops(doc)
-    def has_key(cfg, ops, seed):
-        d = dict(doc); d['ops'] = driver.ops_to_json(ops)
+    ops2 = driver.ops_from_json(doc.get('ops2') or [])
+
+    def has(ops_, ops2_):
+        d = dict(doc); d['ops'] = driver.ops_to_json(ops_)
+        if ops2:
+            d['ops2'] = driver.ops_to_json(ops2_)
         return any(v['key'] == key for v in mod.replay(d))
-    if not has_key(cfg, ops, seed):
+
+    if not has(ops, ops2):
         print('witness does not reproduce', key); return 1
-    small = shrink.ddmin(cfg, ops, seed, has_key)
-    print('key', key, 'cfg', cfg, 'ops', len(ops), '->', len(small))
+    if ops2:
+        # shrink second generation with the first fixed
+        def has2(cfg_, cand, seed_):
+            o, c2 = clean2(cfg, ops, cand, seed)
+            return c2 is not None and len(c2) == len(cand) and has(ops, c2)
+        small2 = ddmin_plain(ops2, lambda cand: has2(cfg, cand, seed))
+        def has1(cand):
+            o, c2 = clean2(cfg, cand, small2, seed)
+            return c2 is not None and len(o) == len(cand) and len(c2) == len(small2) and has(o, c2)
+        small = ddmin_plain(ops, has1)
+    else:
+        small = shrink.ddmin(cfg, ops, seed, lambda c, o, s: has(o, []))
+        small2 = []
+    print('key', key, 'cfg', cfg, 'ops', len(ops), '->', len(small), 'ops2', len(ops2), '->', len(small2))
     for o in small:
-        print(json.dumps(driver.ops_to_json([o])[0], ensure_ascii=False)[:400])
+        print(json.dumps(driver.ops_to_json([o])[0], ensure_ascii=False)[:300])
+    if small2:
+        print('--- reopen ---')
+    for o in small2:
+        print(json.dumps(driver.ops_to_json([o])[0], ensure_ascii=False)[:300])
     if len(sys.argv) > 4:
         d = dict(doc); d['ops'] = driver.ops_to_json(small)
+        if ops2:
+            d['ops2'] = driver.ops_to_json(small2)
         json.dump(d, open(sys.argv[4], 'w'), indent=1)
+
+
+def ddmin_plain(items, test, max_tests=300):
+    cur = list(items)
+    n = 2
+    tests = 0
+    while len(cur) >= 1 and tests < max_tests:
+        if len(cur) == 1:
+            tests += 1
+            if test([]):
+                cur = []
+            break
+        chunk = max(1, len(cur) // n)
+        subsets = [cur[i:i + chunk] for i in range(0, len(cur), chunk)]
+        reduced = False
+        for i in range(len(subsets)):
+            comp = [x for j, s in enumerate(subsets) if j != i for x in s]
+            tests += 1
+            if test(comp):
+                cur = comp
+                n = max(n - 1, 2)
+                reduced = True
+                break
+        if not reduced:
+            if n >= len(cur):
+                break
+            n = min(len(cur), n * 2)
+    return cur
+
+
 main()
